@@ -155,9 +155,13 @@ def seqQuery (cfg : Cfg) (name : String) (s : Seq) (args : List String) : String
   | "kd", [] => outRat (meanHydropathy T s)
   | "uversky", [] => outRat (uverskyHydropathy T s)
   | "ww", [] => outRat (meanWW T s)
-  | "ppii", ["hilser"] => outRat (ppii T.ppiiH s)
-  | "ppii", ["creamer"] => outRat (ppii T.ppiiC s)
-  | "ppii", ["kallenbach"] => outRat (ppii T.ppiiK s)
+  | "ppii", [m] =>
+    -- the scale name is documented as case-insensitive; "default" = the call without a mode argument
+    let ml := m.toLower
+    if ml == "hilser" || m == "default" then outRat (ppii T.ppiiH s)
+    else if ml == "creamer" then outRat (ppii T.ppiiC s)
+    else if ml == "kallenbach" then outRat (ppii T.ppiiK s)
+    else outExc .other
   | "mw", [] => outRat (molWeight T s)
   | "lag", [] => "ints" ++ String.join ((lagVec p).map (fun i => s!" {i}"))
   | "scd", [] => s!"scdlag {p.length}" ++ String.join ((lagVec p).map (fun i => s!" {i}"))
